@@ -299,7 +299,7 @@ def random_schedule(rng, idx):
         "tuning": {"ACK_TIMEOUT": 2.0, "ACK_RANDOM_FACTOR": 1.0, "MAX_RETRANSMIT": mr},
         "mid0": rng.choice([0, 300, 65530, rng.randint(0, 65535)]),
         "nremotes": 3,
-        "rdelay": rng.choice([0, 0, 0, 0, 6]),
+        "rdelay": 0 if rgate else rng.choice([0, 0, 0, 0, 6]),
         "rgate": rgate,
         "steps": steps,
         "reactions": reactions,
@@ -363,7 +363,7 @@ def work(rep, args):
                     dict(mr=1, nobs=2, chg=2, env=2, sil=2, maxt=4, slow="TRUE"), dict(mr=1, nobs=1, chg=3, env=2, sil=2, maxt=4, slow="TRUE")]
         nsim, nslow, nrand = 90, 60, 320
     else:
-        mc_confs = [dict(mr=1, nobs=2, chg=3, env=3, sil=2, maxt=4), dict(mr=1, nobs=1, chg=3, env=4, sil=2, maxt=4), dict(mr=2, nobs=1, chg=3, env=3, sil=3, maxt=8),
+        mc_confs = [dict(mr=1, nobs=2, chg=3, env=3, sil=2, maxt=4), dict(mr=2, nobs=1, chg=3, env=3, sil=3, maxt=8),
                     dict(mr=1, nobs=2, chg=3, env=2, sil=2, maxt=4, slow="TRUE"), dict(mr=1, nobs=1, chg=3, env=3, sil=2, maxt=4, slow="TRUE")]
         nsim, nslow, nrand = 1000, 600, 5000
     phases = {}
